@@ -91,6 +91,10 @@ FEATURES = {
     "event-stream": featgen.wrap({"A": OBJ({"x": {"type": "string"}})}, resp="A", method="get", resp_ct="text/event-stream"),
     "length-vec": featgen.wrap({"A": OBJ({"l": {"type": "array", "minItems": 1, "items": S("B")}}), "B": OBJ({"n": {"type": "integer"}})}, body="A"),
     "binary-body": featgen.wrap({"A": OBJ({"x": {"type": "string"}})}, body={"type": "string", "format": "binary"}, body_ct="application/octet-stream", resp="A"),
+    "optional-text-body": {"openapi": "3.1.0", "info": {"title": "t", "version": "1"}, "components": {"schemas": {}},
+                           "paths": {"/op": {"post": {"operationId": "op", "requestBody": {"content": {"text/plain": {"schema": {"type": "string"}}}}, "responses": {"200": {"description": "ok"}}}}}},
+    "duration-header": featgen.wrap({"A": OBJ({"x": {"type": "string"}})}, resp="A", method="get", params=[{"name": "ttl", "in": "header", "schema": {"type": "string", "format": "duration"}}]),
+    "alias-cycle": featgen.wrap({"A": OBJ({"g": S("Grp")}), "Cfg": {"type": "object", "additionalProperties": S("Grp")}, "Grp": {"type": "array", "items": S("Cfg")}}, body="A", resp="A"),
     "cycle": featgen.wrap({"A": OBJ({"a": S("A"), "l": {"type": "array", "items": S("A")}})}, body="A", resp="A"),
     "union": featgen.wrap({"A": OBJ({"x": {"type": "string"}}), "B": OBJ({"n": {"type": "integer"}}), "U": {"oneOf": [S("A"), S("B")]}}, body="U", resp="U"),
 }
@@ -121,7 +125,7 @@ def e_cases(ctx):
     out = []
     # the flag lattice (all 1152 combinations in the thorough tier) on single-feature documents
     per = 48 if ctx.quick else 1152
-    feats = ["plain", "map-edge", "param-clash"] if ctx.quick else ["plain", "map-edge", "param-clash", "sep-int", "union"]
+    feats = ["plain", "map-edge", "param-clash"] if ctx.quick else ["plain", "map-edge", "param-clash", "union"]
     for f in feats:
         for mode, cfg in lattice_sample(r, per):
             out.append(gen_case(FEATURES[f], mode, cfg))
@@ -129,7 +133,7 @@ def e_cases(ctx):
         for mode in featgen.MODES:
             out.append(gen_case(FEATURES[f], mode, {"vis": "public", "enum_mode": "merge"}))
     # random documents of the feature grammar x random flags
-    for _ in range(250 if ctx.quick else 3000):
+    for _ in range(250 if ctx.quick else 2000):
         mode, cfg = featgen.rand_cfg(r)
         out.append(gen_case(featgen.rand_spec(r), mode, cfg))
     return out
@@ -152,8 +156,23 @@ def err_digest(e):
         name = ty
         trait = re.sub(r"<.*", "", tr).split("::")[-1]
     name = re.sub(r"<.*", "", name).split("::")[-1].strip("&' ")
+    hm = re.search(r"\{(\w+)::<", msg)
+    if hm and "Handler<" in msg:
+        name = hm.group(1)          # the handler function a `Handler<_, _>` bound is about
     return {"code": e["code"] or msg[:40], "file": e["file"], "ikind": e["item"][0] if e["item"] else "", "iname": e["item"][1] if e["item"] else "",
             "name": name, "trait": trait, "msg": msg[:160], "text": e["text"][:120]}
+
+
+def par_impl(ctx, sent, workers=8):
+    """the generator runs are independent: spread a batch over several harness processes"""
+    from concurrent.futures import ThreadPoolExecutor
+    if len(sent) < 64:
+        return ctx.run_impl(sent)
+    n = (len(sent) + workers - 1) // workers
+    parts = [sent[i:i + n] for i in range(0, len(sent), n)]
+    with ThreadPoolExecutor(max_workers=workers) as ex:
+        res = list(ex.map(ctx.run_impl, parts))
+    return [t for part in res for t in part]
 
 
 def arena(ctx, n_random, per_round=120):
@@ -172,7 +191,7 @@ def arena(ctx, n_random, per_round=120):
             cfg["vis"] = r.choice(["public", "crate"])      # module modes with private items never compile (KnownFileVisModule): keep a few
         cases.append(gen_case(featgen.rand_spec(r), mode, cfg, code=True))
     sent = [prepare(c) for c in cases]
-    triples = ctx.run_impl(sent)
+    triples = par_impl(ctx, sent)
     judged = []
     for start in range(0, len(triples), per_round):
         chunk = list(enumerate(triples))[start:start + per_round]
@@ -222,13 +241,17 @@ def run(ctx):
         for i in range(0, len(allc), 4000):
             ctx.classify(ctx.evaluate(allc[i:i + 4000], tie="K"), tie="K")
         ec = e_cases(ctx)
-        for i in range(0, len(ec), 300):
-            ctx.classify(ctx.evaluate(ec[i:i + 300], tie="E"), shrink=False, tie="E")
+        for i in range(0, len(ec), 1200):
+            batch = ec[i:i + 1200]
+            triples = par_impl(ctx, [prepare(c) for c in batch])
+            answers = ctx.run_model(triples)
+            ctx.ties["E"] = ctx.ties.get("E", 0) + len(batch)
+            ctx.classify(list(zip(batch, triples, answers)), shrink=False, tie="E")
             if len(ctx.violations) >= 3:
                 break
         if not ctx.violations:
             try:
-                arena(ctx, 40 if ctx.quick else 700)
+                arena(ctx, 40 if ctx.quick else 420)
             except Exception:
                 import traceback
                 ctx.breaks.append(vlib.Break("harness", "arena", traceback.format_exc()))
